@@ -121,9 +121,23 @@ func solveAll(r *vcore.Run, label string, field *big.Int, sys constraint.Constra
 				r.Eval(key, true)
 				var sol any
 				var err error
-				pan, stack := vcore.Catch(func() {
-					sol, err = s.Solve(w, solver.WithNbTasks(tc), adversary.CommitmentAsHash(), adversary.FixedMask())
-				})
+				var pan any
+				var stack string
+				done := make(chan struct{})
+				go func() {
+					defer close(done)
+					pan, stack = vcore.Catch(func() {
+						sol, err = s.Solve(w, solver.WithNbTasks(tc), adversary.CommitmentAsHash(), adversary.FixedMask())
+					})
+				}()
+				select {
+				case <-done:
+				case <-time.After(5 * time.Minute): // these solves take milliseconds; the goroutine is abandoned
+					r.Count("solve.DID-NOT-RETURN", 1)
+					r.Violation("solve-does-not-return/"+sig(label), "Solve did not return within 5 minutes (the same system solves other witnesses in milliseconds)",
+						map[string]any{"system": label, "witness": wi, "tasks": tc, "which": which})
+					continue
+				}
 				if pan != nil {
 					r.Violation("solve-panic/"+sig(label), fmt.Sprintf("%v\n%s", pan, stack), map[string]any{"system": label, "witness": wi, "tasks": tc, "which": which})
 					continue
